@@ -898,7 +898,10 @@ pub fn run_op(ctx: &mut Ctx, op_line: &str) {
     };
     let bare = format_op(&op);
     let r = reference(&op);
-    let recorded = format!("{} R {}", bare, ref_string(&r));
+    let recorded = match op {
+        Op::Strerror(_) => bare.clone(),
+        _ => format!("{} R {}", bare, ref_string(&r)),
+    };
     let c = call_c(&bare);
     let cl = match c {
         CRes::Line(l) => l,
